@@ -313,6 +313,14 @@ func (r ValueRange) Includes(v Value) Value {
 	case *refinementNumber:
 		minVal, minInc := r.NumberLowerBound()
 		maxVal, maxInc := r.NumberUpperBound()
+		if minVal == NegativeInfinity {
+			// No lower bound at all, so negative infinity is in range too.
+			minInc = true
+		}
+		if maxVal == PositiveInfinity {
+			// No upper bound at all, so positive infinity is in range too.
+			maxInc = true
+		}
 		var minOk, maxOk Value
 		if minInc {
 			minOk = v.GreaterThanOrEqualTo(minVal)
